@@ -3,6 +3,7 @@ package goat
 import (
 	"context"
 	"sync"
+	"sync/atomic"
 
 	"github.com/pkg/errors"
 	"github.com/rs/zerolog/log"
@@ -48,6 +49,9 @@ type proxyClient struct {
 	conn       RpcReadWriter
 	toServer   chan command
 	fromServer chan *goatorepo.Rpc
+	// reported is set once this connection's failure has been handed to the
+	// forwarding loop: one failure is one disconnect callback.
+	reported atomic.Bool
 }
 
 func NewProxy(
@@ -186,6 +190,10 @@ func (p *Proxy) forwardRpc(source string, rpc *goatorepo.Rpc) {
 // report tells the forwarding loop that this connection has failed, unless
 // the proxy has been shut down and nobody is listening any more.
 func (c *proxyClient) report(ctx context.Context, err error) {
+	// The failure of one loop ends the other, which would report it again.
+	if !c.reported.CompareAndSwap(false, true) {
+		return
+	}
 	select {
 	case c.toServer <- command{id: c.id, err: err, from: c}:
 	case <-ctx.Done():
